@@ -146,3 +146,22 @@ Theorem context_init_race_refuted :
     /\ (let '(a, b, _) := irun [true; true; false; false] [] in (a, b)) = (IDone, IDone)
     /\ (let '(a, b, _) := irun [false; false; true; true] [] in (a, b)) = (IDone, IDone).
 Proof. exists [true; false; true; false]. vm_compute. auto. Qed.
+
+(* C16-RESULTS-RACE (open).  Context.store_results takes no lock (store_annotation and store_message do:
+   locked_writers_serializable): its two writes are two steps, and a second store_results of the same context
+   that runs between them leaves results.json of the second and results.csv of the first call — the file
+   system of neither serial order, although every single write succeeds. *)
+Theorem results_writers_refuted :
+  let f0 := run [WInit] [] in
+  let wj (id : N) := write_file (results_json []) [T_TRES; id] in
+  let wc (id : N) := write_file (results_csv []) [T_TCSV; id] in
+  let step (m : M unit) (f : fs) := run_ops (fst (m f)) f in
+  let g := step (wc 1%N) (step (wc 2%N) (step (wj 2%N) (step (wj 1%N) f0))) in
+  store_results None 1%N = (wj 1%N ;; wc 1%N) /\ store_results None 2%N = (wj 2%N ;; wc 2%N)
+  /\ snd (wj 1%N f0) = inr tt /\ snd (wj 2%N (step (wj 1%N) f0)) = inr tt
+  /\ snd (wc 2%N (step (wj 2%N) (step (wj 1%N) f0))) = inr tt
+  /\ snd (wc 1%N (step (wc 2%N) (step (wj 2%N) (step (wj 1%N) f0)))) = inr tt
+  /\ lookup g (results_json []) = Some (File [T_TRES; 2%N]) /\ lookup g (results_csv []) = Some (File [T_TCSV; 1%N])
+  /\ fs_eqb g (run [WResults None 1%N; WResults None 2%N] f0) = false
+  /\ fs_eqb g (run [WResults None 2%N; WResults None 1%N] f0) = false.
+Proof. cbv zeta. split; [reflexivity|]. split; [reflexivity|]. vm_compute. auto 10. Qed.
